@@ -90,6 +90,16 @@ def observe(text):
     return "".join(p.skel), p.hits
 
 
+def rows_collapsed(skel):
+    """the number of traceback rows depends on where the exception came
+    from (a hostile Cookie fails earlier than the handler): compare the
+    skeletons up to repetition of the traceback row"""
+    row = "<span class=></span>"
+    while row + row in skel:
+        skel = skel.replace(row + row, row)
+    return skel
+
+
 # ------------------------------------------------------------------ scenarios
 def handler_for(kind, message):
     """default handler producing the built-in page `kind`"""
@@ -199,6 +209,102 @@ def dir_valuation(results, root, uri, debug, host):
                {"req.debug": debug}, {"index": rows})
 
 
+def eval_valuation(nodes, ns):
+    """valuation of IR nodes with every hole, test and iterable evaluated
+    from its own source text in the real environment ns (the request and
+    application objects the page generator ran with)"""
+    val = Val({}, {}, {})
+    for n in nodes:
+        if isinstance(n, py2pages.Hole):
+            val.h[n.src] = str(eval(n.src, ns))            # noqa: S307
+        elif isinstance(n, py2pages.Cond):
+            taken = bool(eval(n.test, ns))                 # noqa: S307
+            val.c[n.test] = taken
+            sub = eval_valuation(n.a if taken else n.b, ns)
+            val.h.update(sub.h)
+            val.c.update(sub.c)
+            val.l.update(sub.l)
+        elif isinstance(n, py2pages.Loop):
+            rows = []
+            for item in eval(n.it, ns):                    # noqa: S307
+                ns2 = dict(ns)
+                ns2["__row__"] = item
+                exec("%s = __row__" % n.target, ns2)       # noqa: S102
+                rows.append(eval_valuation(n.body, ns2))
+            val.l[n.it] = rows
+    return val
+
+
+def debug_info_namespace(results, req, app):
+    """globals of results.py + the locals debug_info computes before it
+    builds markup (state table, padded hook lists, environ copy)"""
+    ns = dict(vars(results))
+    tmp = {}
+    tmp.update((key, val.copy()) for key, val in results.default_states.items())
+    for key, val in app.states.items():
+        if key in tmp:
+            tmp[key].update(val)
+        else:
+            tmp[key] = val
+    pre, post = app.before, app.after
+    if len(pre) >= len(post):
+        post += (len(pre) - len(post)) * (None, )
+    else:
+        pre += (len(post) - len(pre)) * (None, )
+    env = req.environ.copy()
+    if hasattr(os, "getgid"):
+        env["os.pgid"], env["os.puid"] = os.getgid(), os.getuid()
+        env["os.egid"], env["os.euid"] = os.getegid(), os.geteuid()
+    ns.update(req=req, app=app, _tmp_shandlers=tmp, pre=pre, post=post,
+              environ=env)
+    return ns
+
+
+def debug_info_cases(ctx, tr, texts):
+    """real /debug-info pages (routes, filters, hooks, hostile headers) vs
+    page_debug_info rendered with values read from the same request"""
+    from poorwsgi import results, wsgi, state
+    cases, seen = [], []
+    real = wsgi.debug_info
+
+    def spy(req, app):
+        seen.append((req, app))
+        return real(req, app)
+
+    def hook(req, *args):
+        return args[0] if args else None
+    wsgi.debug_info = spy
+    try:
+        for n, text in enumerate(texts):
+            app = new_app(debug=True)
+            if n % 2:
+                app.set_route("/static/" + str(n), lambda req: "x")
+                app.set_route("/user/<name:word>/<age:int>",
+                              lambda req, name, age: "x", state.METHOD_POST)
+                app.set_route("/re/<x:re:[a-z\"']+>", hook)
+                app.set_default(hook, state.METHOD_GET_POST)
+                app.add_before_response(hook)
+                app.add_after_response(hook)
+                app.add_after_response(lambda req, res: res)
+            headers = {h: text for h in HEADERS}
+            ans = call(app, environ(path="/debug-info", query="q=" + text,
+                                    headers=headers,
+                                    extra={"app_Option": text}))
+            if not seen or ans.code != 200:
+                ctx.notes.append("debug-info scenario answered %s" %
+                                 ans.status)
+                continue
+            req, app_ = seen.pop()
+            seen.clear()
+            val = eval_valuation(tr.pages["debug_info"],
+                                 debug_info_namespace(results, req, app_))
+            cases.append(("debug_info", val, body_text(ans),
+                          ("debug_info", n % 2, text)))
+    finally:
+        wsgi.debug_info = real
+    return cases
+
+
 def correspondence(ctx, tr, gen_ok, tree, real_pages):
     from poorwsgi import results
     rng = ctx.rng
@@ -301,6 +407,8 @@ def correspondence(ctx, tr, gen_ok, tree, real_pages):
                 val = dir_valuation(results, tree.root, uri, debug, host)
                 cases.append(("directory_index", val, body_text(ans),
                               ("directory_index", debug, uri, host)))
+    if tr is not None:
+        cases += debug_info_cases(ctx, tr, texts)
     for fn, val, text, payload in cases:
         real_pages.append((payload, text))
     if gen_ok:
@@ -397,7 +505,8 @@ def judge(ctx, page, debug, loc, kind_name, payload, ans, base, replay):
         ctx.violation("%s-on-%s" % (hits[0][0], page), dict(
             replay, status=ans.status, parsed=[list(h) for h in hits[:4]],
             excerpt=excerpt(text)))
-    elif base is not None and base[0] == ans.status and base[1] != skel:
+    elif base is not None and base[0] == ans.status and \
+            rows_collapsed(base[1]) != rows_collapsed(skel):
         ctx.violation("structure-differs-on-%s" % page, dict(
             replay, status=ans.status, benign_skeleton=base[1][-300:],
             skeleton=skel[-300:], excerpt=excerpt(text)))
